@@ -396,6 +396,9 @@ TARGETED = [
     ("m*", "u5", "a*", "brk", "brk"), ("m*", "u5", "u5", "u5", "brk"), ("m1", "u5", "brk"), ("a2", "u5", "brk"),
     ("tag", "tag", "tag", "u5"), ("a*", "m*", "t2", "u5", "brk", "brk"), ("m*", "t2", "b2", "t2", "f", "brk"),
     ("a2", "a1", "u5", "m0"), ("m1", "a0", "m*", "brk"), ("a*", "b*", "b2", "brk", "t*", "t2", "brk", "brk"),
+    # one-byte simple values after the first element / pair of an indefinite-length container (the head length is measured per item)
+    ("a*", "u5", "false", "brk"), ("a*", "false", "false", "brk"), ("a*", "t2", "null", "false", "brk"), ("m*", "u5", "u5", "false", "u5", "brk"),
+    ("m*", "false", "false", "false", "false", "brk"), ("a*", "a*", "u5", "false", "brk", "false", "brk"), ("a*", "u5", "false@2", "brk"),
     # a character split across two chunks of an indefinite-length text: each chunk must be valid UTF-8 by itself
     ("t*", "t1h", "t2h", "brk"), ("t*", "t2", "t1h", "t2h", "brk"), ("t1h",), ("t*", "t1h", "brk"), ("t*", "t2h", "t1h", "brk"),
 ]
